@@ -653,6 +653,34 @@ fn c05_case_t<A: Subject>(run: &Run, cfg: &Cfg, st: &Start, word: &[Op], cut: us
       run.eval(1);
     }
   }
+  // ---- a look at the file through the OTHER arena flavour (read-only: nothing changes): the file format is one,
+  // whoever wrote the file, so the reader sees the state the writer left
+  if cut % 2 == 0 {
+    fn peek<B: Subject>(path: &PathBuf, o: Options) -> Result<((usize, u32, usize, u32, u16, u16), Vec<(u32, u64)>, Vec<u8>), String> {
+      let b: B = open::<B>(path, o, Mode::Map).map_err(|e| e.to_string())?;
+      let s = b.snap(64);
+      Ok(((b.allocated(), b.discarded(), b.data_offset(), b.minimum_segment_size(), b.magic_version(), b.version()), s.nodes.clone(), b.allocated_memory().to_vec()))
+    }
+    let o = open_opts(cfg, capo, false);
+    let got = if A::SYNC { peek::<unsync::Arena>(&path, o) } else { peek::<sync::Arena>(&path, o) };
+    run.eval(1);
+    match got {
+      Err(e) => bad("other-flavour-refused", format!("read-only open by the other arena flavour failed: {}", e)),
+      Ok((t, nodes, bytes)) => {
+        let want = (tuple.0, tuple.1, tuple.2, tuple.3, tuple.4, tuple.5);
+        if t != want {
+          bad("other-flavour-state-tuple", format!("(allocated, discarded, data_offset, min_segment_size, magic, version) written {:?}, read by the other arena flavour {:?}", want, t));
+        } else if nodes != pre.nodes {
+          bad("other-flavour-free-list", format!("free list written {:?}, read by the other arena flavour {:?}", pre.nodes, nodes));
+        } else if bytes != img {
+          bad("other-flavour-bytes", "bytes below the cursor differ when read by the other arena flavour".into());
+        }
+      }
+    }
+    if std::fs::read(&path).unwrap() != on_disk {
+      bad("other-flavour-read-only-open-changed-file", "a read-only open by the other arena flavour changed the file".into());
+    }
+  }
   // ---- reopen
   // a read-only open takes the free-list kind from the file: the opener's options name another one
   let mut ocfg = *cfg;
@@ -1286,7 +1314,7 @@ fn c06_concurrent(run: &Run, thorough: bool) {
   }
   par_for_each(&items, |_, (h, bound)| {
     IMG.with(|i| *i.borrow_mut() = Some(ImgState::default()));
-    let xc = ExploreCfg { bound: *bound, hb: false, drain: false, prop_of: none, max_execs: 2_000_000, cache: false, stale: 0, spur: 0 };
+    let xc = ExploreCfg { bound: *bound, hb: false, drain: false, prop_of: none, max_execs: 2_000_000, cache: false, stale: 0, spur: 0, por: false };
     let st = explore(run, h, &xc, "C06");
     scheds.fetch_add(st.execs, std::sync::atomic::Ordering::Relaxed);
     let got = IMG.with(|i| i.borrow_mut().take()).unwrap_or_default();
@@ -1310,7 +1338,7 @@ fn replay_c06_sched(case: &Value) -> i32 {
   let sched: Vec<u8> = serde_json::from_value(case["schedule"].clone()).expect("schedule");
   let event = case["event"].as_u64().unwrap_or(0);
   IMG.with(|i| *i.borrow_mut() = Some(ImgState::default()));
-  let o = ExecOpts { tracing: false, hash_states: false, hb: false, drain: false, cache: false, bounded: true, stale: 0, spur: 0 };
+  let o = ExecOpts { tracing: false, hash_states: false, hb: false, drain: false, cache: false, bounded: true, stale: 0, spur: 0, por: false };
   let _ = run_one(&h, &sched, &o);
   let got = IMG.with(|i| i.borrow_mut().take()).unwrap_or_default();
   let run = Run::new("C06", Tier::Quick, "fault_enumeration");
@@ -1323,12 +1351,76 @@ fn replay_c06_sched(case: &Value) -> i32 {
   run.finish()
 }
 
+/// unsync::Arena performs no atomic accesses: its crash points are the operation boundaries.  The image is what the
+/// *file* holds there (the page cache a kill leaves behind), which must be what the mapping shows.
+fn c06_unsync_case(run: &Run, cfg: &Cfg, st: &Start, word: &[Op], trunc: bool) {
+  type U = unsync::Arena;
+  let mut cfgv = *cfg;
+  let mut r = Runner::<U>::new(cfg).unwrap();
+  let mut v = vec![];
+  for su in &st.setup {
+    match su {
+      Setup::Do(op) => {
+        r.step(*op, 0, &mut v);
+      }
+      Setup::Pin(p) => r.pin(*p as usize),
+    }
+  }
+  let case = json!({"engine": "c06-unsync", "cfg": cfg, "start": st, "word": word.to_vec(), "trunc": trunc});
+  crate::crashguard::set_case(crate::crashguard::head_of(&case));
+  let ctx = format!("unsync {:?} start {}{} history {}", cfg.fl, st.name, if trunc { " truncate(capacity + 64)" } else { "" }, word_str(&word));
+  if trunc {
+    cfgv.cap += 64;
+    let mif = r.min_in_force;
+    // the handles are detached and dropped before the resize (it moves the mapping); their ranges stay
+    // the caller's
+    let mut keep: Vec<Live> = vec![];
+    for mut l in std::mem::take(&mut r.slots).into_iter().chain(std::mem::take(&mut r.pinned)) {
+      if let Some(h) = l.h.as_mut() {
+        h.detach_();
+      }
+      l.h = None;
+      keep.push(l);
+    }
+    let (mut arena, path) = r.into_arena();
+    match arena.truncate_(cfgv.cap as usize) {
+      Some(Ok(())) => {}
+      other => {
+        viol(run, "C06", "truncate-failed", format!("[{}] truncate({}): {:?}", ctx, cfgv.cap, other.map(|r| r.map_err(|e| e.to_string()))), case.clone());
+        return;
+      }
+    }
+    r = Runner::<U>::from_arena(&cfgv, arena, path);
+    r.min_in_force = mif;
+    r.pinned = keep;
+  }
+  for (k, op) in word.iter().enumerate() {
+    if r.step(*op, 0, &mut v).is_none() {
+      break;
+    }
+    let lives: Vec<(Meta4, u8)> = r.all_live().map(|l| (l.m, l.pat)).collect();
+    // what a kill leaves behind is what the page cache holds: the file, not this process's view of it
+    let img = match r.path.as_ref().and_then(|p| std::fs::read(p).ok()) {
+      Some(f) => f,
+      None => r.a.memory().to_vec(),
+    };
+    if img.len() != r.a.memory().len() || img != r.a.memory() {
+      let first = img.iter().zip(r.a.memory()).position(|(x, y)| x != y);
+      viol(run, "C06", "file-differs-from-mapping", format!("[{} | after {}] the file holds {} bytes, the mapping {}; first difference at {:?}: what the arena wrote has not reached the file a kill would leave", ctx, word_str(&word[..=k]), img.len(), r.a.memory().len(), first), case.clone());
+      break;
+    }
+    recover(run, &cfgv, &img, &lives, &format!("{} (first {})", ctx, k + 1), "at the operation boundary", &case);
+  }
+  crate::crashguard::clear_case();
+
+}
+
 pub fn check_c06(tier: Tier) -> i32 {
   let run = Run::new("C06", tier, "fault_enumeration");
   let thorough = tier == Tier::Thorough;
   use Op::*;
   use Sz::*;
-  let alphabet = vec![B(N(7)), B(N(16)), B(N(40)), B(R), T(U64), AB(U64, N(4)), D(0), D(1), F(0), Disc, Clear];
+  let alphabet = vec![B(N(7)), B(N(16)), B(N(40)), B(R), T(U64), T(A16), AB(U64, N(4)), D(0), D(1), F(0), Disc, Clear];
   let mut items = vec![];
   for fl in Fl::ALL {
     for (reserved, min_seg) in [(0u32, 8u32), (5, 0)] {
@@ -1368,24 +1460,8 @@ pub fn check_c06(tier: Tier) -> i32 {
       for st in [Start::fresh(), fragmented_starts()[1].clone()] {
         for a1 in &alphabet {
           for a2 in &alphabet {
-            let word = vec![*a1, *a2];
-            let mut r = Runner::<U>::new(&cfg).unwrap();
-            let mut v = vec![];
-            for su in &st.setup {
-              match su {
-                Setup::Do(op) => {
-                  r.step(*op, 0, &mut v);
-                }
-                Setup::Pin(p) => r.pin(*p as usize),
-              }
-            }
-            for (k, op) in word.iter().enumerate() {
-              if r.step(*op, 0, &mut v).is_none() {
-                break;
-              }
-              let lives: Vec<(Meta4, u8)> = r.all_live().map(|l| (l.m, l.pat)).collect();
-              let img = r.a.memory().to_vec();
-              recover(&run, &cfg, &img, &lives, &format!("unsync {:?} start {} history {}", fl, st.name, word_str(&word[..=k])), "at the operation boundary", &json!({"engine": "c06-unsync", "cfg": cfg, "start": st, "word": word[..=k].to_vec()}));
+            for trunc in [false, true] {
+              c06_unsync_case(&run, &cfg, &st, &[*a1, *a2], trunc);
             }
           }
         }
@@ -1445,6 +1521,14 @@ pub fn replay(case: &Value) -> i32 {
       } else {
         c05_case_t::<unsync::Arena>(&run, &cfg, &st, &word, cut, mode, capo, flush, create, case["trunc"].as_bool().unwrap_or(false));
       }
+      run.finish()
+    }
+    "c06-unsync" if case.get("start").is_some() => {
+      let run = Run::new("C06", Tier::Quick, "fault_enumeration");
+      let st: Start = serde_json::from_value(case["start"].clone()).expect("start");
+      let word: Vec<Op> = serde_json::from_value(case["word"].clone()).expect("word");
+      println!("replay c06-unsync: {:?} start {} history {} trunc {}", cfg, st.name, word_str(&word), case["trunc"].as_bool().unwrap_or(false));
+      c06_unsync_case(&run, &cfg, &st, &word, case["trunc"].as_bool().unwrap_or(false));
       run.finish()
     }
     "c06" | "c06-unsync" => {
